@@ -44,7 +44,8 @@ def run(ctx):
         if r["diverged"]:
             ctx.divergences += 1
             vlib.log("DIVERGENCE property=C02 forced replay: " + r["diverged"])
-    P.validate_traces(ctx, recs)
+    div = P.validate_traces(ctx, recs)
+    P.binding_selftest(ctx, recs, div)
     ctx.tick("trace_validation")
     bad = P.judge_runs(ctx, recs, PREF)
     P.confirm(ctx, cases, recs, bad, PREF, lambda cs: P.run_pipe(ctx, cs, shards=1))
